@@ -310,6 +310,9 @@ pub struct Case {
     /// (http URLs) the request goes through an http proxy: the same request, with its URL as absolute-form target
     #[serde(default)]
     pub via_proxy: bool,
+    /// for the eight standard methods: start from the method of that name on a fresh Session
+    #[serde(default)]
+    pub via_session: bool,
 }
 
 pub struct C07;
@@ -603,11 +606,11 @@ non-trivial = a body or >= 1 param or a custom program with >= 2 writes";
             urlgen::url_spec(true, false),
             proptest::collection::vec(build_op(), 0..7),
             body_spec(),
-            (prop::bool::weighted(0.8), crate::props::c15::short_write_strategy(), any::<bool>(), prop::bool::weighted(0.2)),
+            (prop::bool::weighted(0.8), crate::props::c15::short_write_strategy(), any::<bool>(), prop::bool::weighted(0.2), prop::bool::weighted(0.3)),
         )
-            .prop_map(|(method, url, ops, body, (allow_compression, short_write, via_free_fn, via_proxy))| {
+            .prop_map(|(method, url, ops, body, (allow_compression, short_write, via_free_fn, via_proxy, via_session))| {
                 let method = if method == "CONNECT" { "CONNECTX".to_string() } else { method };
-                Case { method, url, ops, body, allow_compression, short_write, via_free_fn, via_proxy }
+                Case { method, url, ops, body, allow_compression, short_write, via_free_fn, via_proxy, via_session }
             })
             .boxed()
     }
@@ -631,10 +634,24 @@ non-trivial = a body or >= 1 param or a custom program with >= 2 writes";
             (true, "TRACE") => Some(|u| attohttpc::trace(u)),
             _ => None,
         };
-        ctx.label_if(free.is_some(), "built-with-free-function");
-        let rb = match free {
-            Some(f) => f(&url),
-            None => match attohttpc::RequestBuilder::try_new(method, &url) {
+        let session = attohttpc::Session::new();
+        let from_session: Option<attohttpc::RequestBuilder> = match (case.via_session, case.method.as_str()) {
+            (true, "GET") => Some(session.get(&url)),
+            (true, "POST") => Some(session.post(&url)),
+            (true, "PUT") => Some(session.put(&url)),
+            (true, "DELETE") => Some(session.delete(&url)),
+            (true, "HEAD") => Some(session.head(&url)),
+            (true, "OPTIONS") => Some(session.options(&url)),
+            (true, "PATCH") => Some(session.patch(&url)),
+            (true, "TRACE") => Some(session.trace(&url)),
+            _ => None,
+        };
+        ctx.label_if(from_session.is_some(), "built-with-session-method");
+        ctx.label_if(from_session.is_none() && free.is_some(), "built-with-free-function");
+        let rb = match (from_session, free) {
+            (Some(rb), _) => rb,
+            (None, Some(f)) => f(&url),
+            (None, None) => match attohttpc::RequestBuilder::try_new(method, &url) {
                 Ok(rb) => rb,
                 Err(e) => return Outcome::fail("C07:url-rejected", format!("try_new rejected {url:?}: {e:?}")),
             },
